@@ -28,7 +28,7 @@ def build_groups(ctx: Ctx):
     U = rt.universe()
     for i, a in enumerate(U):
         for j, b in enumerate(U):
-            if i == j or (q and rng.random() > 0.06) or (not q and rng.random() > 0.5):
+            if i == j or (q and rng.random() > 0.06) or (not q and rng.random() > 0.3):
                 continue
             bind = rng.choice(rt.BINDS)
             rules = [dict(a), dict(b)]
@@ -38,7 +38,7 @@ def build_groups(ctx: Ctx):
             cases = [(p, "GET", rng.choice(rt.QUERIES)) for p in rt.c12_paths(rules, rng, 24)]
             groups.append((rt.make_cfg(rules, rng.random() < 0.7, rng.random() < 0.7, True, bind), False, cases))
     # (b) random maps with defaults / alias pairs and per-rule overrides
-    for _ in range(220 if q else 6000):
+    for _ in range(220 if q else 2500):
         rules = rt.c12_rules(rng, rng.randint(2, 6))
         bind = rng.choice(rt.BINDS)
         if bind["scheme"] in ("ws", "wss"):
